@@ -42,10 +42,38 @@ FinalClause(pre, e) ==
   ELSE IF \E k \in DOMAIN e.twins_x : e.twins_x[k] # e.final THEN "ReproducibleAcrossProcesses"
   ELSE "ok"
 
+(***************************************************************************)
+(* update_hof driven directly (spec behaviours replayed into the real      *)
+(* method): hall of fame before, population handed in, hall of fame after, *)
+(* entries [score, size] (size 0 = empty slot, score Inf).  The insertion  *)
+(* rule is the one of MC_Evo: scan from the top; on an equal score insert  *)
+(* before the entry only if the circuit is smaller; on a strictly better   *)
+(* score insert before the entry; the last entry drops out.                *)
+(***************************************************************************)
+InsertAt(h, i, x) == SubSeq(h, 1, i - 1) \o <<x>> \o SubSeq(h, i, Len(h) - 1)
+RECURSIVE ScanH(_, _, _)
+ScanH(h, x, i) ==
+  IF i > Len(h) THEN h
+  ELSE IF h[i].size # 0 /\ Close(x.score, h[i].score)
+       THEN (IF x.size < h[i].size THEN InsertAt(h, i, x) ELSE ScanH(h, x, i + 1))
+  ELSE IF x.score < h[i].score THEN InsertAt(h, i, x)
+  ELSE ScanH(h, x, i + 1)
+RECURSIVE UpdateAll(_, _, _)
+UpdateAll(h, pop, j) == IF j > Len(pop) THEN h ELSE UpdateAll(ScanH(h, pop[j], 1), pop, j + 1)
+HofClause(e) ==
+  IF e.err # "" THEN "Raised"
+  ELSE LET want == UpdateAll(e.before, e.pop, 1) IN
+    IF Len(e.after) # Len(want) THEN "HofSize"
+    ELSE IF \E i \in DOMAIN want : ~Close(want[i].score, e.after[i].score) \/ want[i].size # e.after[i].size THEN "HofUpdateRule"
+    ELSE IF \E i \in 1..(Len(e.after) - 1) : ~Leq(e.after[i].score, e.after[i + 1].score) THEN "HofSorted"
+    ELSE "ok"
+
 Init == tid \in 1..Len(Traces) /\ l = 1 /\ why = "ok" /\ prev = [has |-> FALSE]
 Next == /\ why = "ok" /\ l <= Len(Events(tid))
         /\ LET e == Events(tid)[l] IN
-             IF e.ev = "gen"
+             IF e.ev = "update_hof"
+             THEN why' = HofClause(e) /\ prev' = prev
+             ELSE IF e.ev = "gen"
              THEN why' = GenClause(prev, e) /\ prev' = [has |-> TRUE, hof |-> e.hof]
              ELSE why' = FinalClause(prev, e) /\ prev' = prev
         /\ l' = l + 1 /\ tid' = tid
